@@ -291,9 +291,9 @@ pub const KNOWN_ATTR_NAMES: [&str; 14] = [
     "end-of-candidates",
 ];
 /// the known names the crate reads as a value-less flag ...
-pub const FLAG_ATTR_NAMES: [&str; 5] = ["sendrecv", "recvonly", "sendonly", "inactive", "end-of-candidates"];
-/// ... and the ones it reads only together with a value. `ice-lite` is in neither list: the crate
-/// reads it with and without a value, so no form of it is an unknown attribute.
+pub const FLAG_ATTR_NAMES: [&str; 6] = ["sendrecv", "recvonly", "sendonly", "inactive", "end-of-candidates", "ice-lite"];
+/// ... and the ones it reads only together with a value. (`ice-lite` with a value used to be read as the flag
+/// as well; repaired by fix b44fa0f, see known_findings.txt, so it is an ordinary flag name now.)
 pub const VALUED_ATTR_NAMES: [&str; 8] =
     ["rtpmap", "fmtp", "rtcp", "ice-options", "ice-ufrag", "ice-pwd", "candidate", "crypto"];
 
